@@ -1,5 +1,5 @@
 # Std-Lib imports
-from typing import Set, Union, Optional
+from typing import Set, Union, Optional, Iterable, List
 
 # Local imports
 from .datatype import datatype, AllowArbConfig
@@ -42,3 +42,11 @@ class PortRef:
     def __hash__(self):
         """Hash references as the tuple of their instance-address and name"""
         return hash((id(self.inst), self.portname))
+
+
+def ordered(portrefs: Iterable[PortRef]) -> List[PortRef]:
+    """# Order a collection of `PortRef`s by instance and port name.
+    Sets of `PortRef`s are hashed (in part) by memory address and string-hash,
+    and hence iterate in orders which differ from one process to the next.
+    Everything whose result depends on that order goes through here instead."""
+    return sorted(portrefs, key=lambda p: (p.inst.name or "", p.portname))
